@@ -322,6 +322,20 @@ def getter_bits(F, body, adt):
     return ev.ev(r, w)
 
 
+def _bytes_of_int(n):
+    """(little_endian, value node) when n is `&value.to_le_bytes()` / `&value.to_be_bytes()`"""
+    n = strip(n)
+    while n[0] in ('ref', 'deref', 'after') and len(n) >= 2:
+        n = strip(n[1])
+    if n[0] == 'cast':
+        return _bytes_of_int(n[1])
+    if n[0] == 'call' and len(n[2]) == 1:
+        last = n[1].rsplit('::', 1)[-1]
+        if last in ('to_le_bytes', 'to_be_bytes') and 'core::num::' in n[1]:
+            return (last == 'to_le_bytes', n[2][0])
+    return None
+
+
 def setter_stores(F, body, adt, only_blocks=None, sub_hook=None, ignore_calls=(), lenient=False, submaps=None):
     """dict byte -> stored bits, for a setter whose stores are element stores / write_uN on constant ranges.
     Raises Undecided on anything else that touches the buffer.
@@ -415,6 +429,32 @@ def setter_stores(F, body, adt, only_blocks=None, sub_hook=None, ignore_calls=()
                         continue
                     bytemap[byte] = bits[8 * j:8 * j + 8]
                 touched = True
+            elif last in ('copy_from_slice', 'clone_from_slice') and len(args) == 2 and _bytes_of_int(og.operand(body, args[1], bi, si)) is not None \
+                    and _slice_of_buffer(F, og.operand(body, args[0], bi, si), adt) is not None:
+                # data.copy_from_slice(&value.to_le_bytes()): a write_uN in disguise
+                little, val = _bytes_of_int(og.operand(body, args[1], bi, si))
+                r = _slice_of_buffer(F, og.operand(body, args[0], bi, si), adt)
+                nb = r[1] - r[0]
+                val = _expand(F, simplify(val), adt)
+                e_ = Eval(F, adt, dict(bytemap), hook)
+                e_.opaque_calls_ok = True
+                try:
+                    if e_.width_of(val, default=8 * nb) != 8 * nb:
+                        raise Undecided('copy width')
+                    bits = e_.ev(val, 8 * nb)
+                except Undecided:
+                    if not lenient:
+                        raise
+                    bits = None
+                for j in range(nb):
+                    byte = r[0] + j if little else r[1] - 1 - j
+                    if byte in bytemap and not lenient:
+                        raise Undecided('byte stored twice')
+                    if bits is None:
+                        bytemap[byte] = [mix(x, DEF) if x not in (0, 1) else DEF for x in e_.byte(byte)]
+                    else:
+                        bytemap[byte] = bits[8 * j:8 * j + 8]
+                touched = True
             elif last in ('copy_from_slice', 'fill', 'clone_from_slice', 'swap', 'reverse'):
                 dst = og.operand(body, args[0], bi, si) if args else None
                 if dst is not None and 'buffer' in show(strip(dst)):
@@ -422,8 +462,10 @@ def setter_stores(F, body, adt, only_blocks=None, sub_hook=None, ignore_calls=()
                         raise Undecided('bulk store')
                     r = _slice_of_buffer(F, dst, adt)
                     if r is not None and last in ('copy_from_slice', 'fill', 'clone_from_slice'):
+                        # a source computed from the buffer itself may carry the old content along
+                        from_buf = len(args) > 1 and any('buffer' in l for l in leafs(og.operand(body, args[1], bi, si)))
                         for byte in range(r[0], r[1]):
-                            bytemap[byte] = [DEF] * 8
+                            bytemap[byte] = [mix(x, DEF) if x not in (0, 1) else DEF for x in ev.byte(byte)] if from_buf else [DEF] * 8
                         touched = True
             elif submaps is not None and nm in submaps and nm not in ignore_calls:
                 for byte, bits in submaps[nm].items():
